@@ -261,6 +261,15 @@ func (r *Rec) Check(t *testing.T, n int, prop func(*rapid.T)) {
 	r.mu.Unlock()
 }
 
+// InconclusiveError is returned by a Replayer when the input could not be decided for
+// an infrastructure reason (oracle build failed ...): never a violation.
+type InconclusiveError struct{ Msg string }
+
+func (e InconclusiveError) Error() string { return "INCONCLUSIVE: " + e.Msg }
+
+// Inconclusive builds an InconclusiveError.
+func Inconclusive(msg string) error { return InconclusiveError{msg} }
+
 // Replayer re-checks one plain-form input and returns a non-nil error when the
 // property is violated on it.
 type Replayer func(content []byte) error
@@ -284,6 +293,9 @@ func (r *Rec) RunReplays(t *testing.T, f Replayer) {
 			}()
 			res = f(data)
 		}()
+		if ie, ok := res.(InconclusiveError); ok {
+			t.Fatalf("%s: %v", path, ie)
+		}
 		return res
 	}
 	if r.replay != "" {
